@@ -65,7 +65,12 @@ Error BaseBuilder::new_inst_node(Out<InstNode*> out, InstId inst_id, InstOptions
     return report_error(make_error(Error::kOutOfMemory));
   }
 
-  out = new(Support::PlacementNew{ptr}) InstNode(inst_id, inst_options, op_count, op_capacity);
+  // The node's memory is not zeroed - operands the user doesn't assign must be none as `serialize_to()` passes
+  // the first three operands to the destination emitter regardless of `op_count`.
+  InstNode* node = new(Support::PlacementNew{ptr}) InstNode(inst_id, inst_options, op_count, op_capacity);
+  node->reset_op_range(0, op_capacity);
+
+  out = node;
   return Error::kOk;
 }
 
